@@ -67,6 +67,8 @@ struct Thread {
     pthread_t th{};
     bool started = false;
     int seen_init = 0;
+    bool dynamic = false;     // library thread that registered itself (init() spawned it)
+    long tick_budget = 0;     // dynamic threads run only while the harness grants yields
 };
 
 struct Sched {
@@ -95,6 +97,8 @@ struct Sched {
     std::string* trace = nullptr;
     // relevance
     bool rel_on = false;
+    Thread* role_thread[4] = {nullptr, nullptr, nullptr, nullptr};
+    std::atomic<int> spawned{0};
 };
 
 constexpr int kConfirmRounds = 8;
@@ -470,6 +474,19 @@ static int yield_hook(const char* file, int line) {
     me->npoints++;
     watchdog(me);
     me->yields++;
+    if (me->dynamic) {
+        // tick driven: park unless the harness granted another wake-up
+        if (me->tick_budget <= 0) {
+            me->state = T_PARKED;
+            for (int i = 0; i < S.n; ++i) {
+                if (S.t[i].state == T_JOIN && S.t[i].wait_addr == me && S.t[i].kind == 99) S.t[i].state = T_RUNNABLE;
+            }
+            decide(me, false, 2);
+            me->state = T_RUNNABLE;
+        }
+        me->tick_budget--;
+        return 1;
+    }
     if (me->horizon > 0 && me->yields > me->horizon && !S.released) {
         me->state = T_PARKED;
         decide(me, false, 2);
@@ -564,6 +581,7 @@ static ExecResult run_one(Harness& h, const Options& opt, const std::vector<Devi
     S.dev_cursor = 0;
     S.verdict = V_OK;
     S.released = false;
+    for (auto& rt : S.role_thread) rt = nullptr;
     S.nontrivial = false;
     S.trace = trace;
     S.done.store(0);
@@ -980,6 +998,76 @@ ExecResult replay(Harness& h, const Options& opt, const std::vector<Deviation>& 
 }
 
 // ---------------------------------------------------------------------------------------------
+// library threads spawned inside an execution (init() / fin())
+// ---------------------------------------------------------------------------------------------
+static void thread_hook(int what, int role) {
+    if (role < 0 || role > 3) return;
+    Thread* me = tls_me;
+    switch (what) {
+        case 0: { // BEGIN, on the new pthread
+            if (me != nullptr || !S.active) return; // a pool worker runs the body itself, or no execution in progress
+            if (S.n >= kMaxThreads) terminal(V_DIVERGED, "too many dynamic threads");
+            Thread* t = &S.t[S.n];
+            t->id = S.n;
+            t->state = T_RUNNABLE;
+            t->wait_addr = nullptr;
+            t->own_writes = 0;
+            t->retry_mark = 0;
+            t->pend = false;
+            t->npoints = 0;
+            t->yields = 0;
+            t->horizon = 0;
+            t->in_op = false;
+            t->forced = false;
+            t->file = "";
+            t->line = 0;
+            t->obs = 0;
+            t->dynamic = true;
+            t->tick_budget = 0;
+            t->go.store(0);
+            S.role_thread[role] = t;
+            tls_me = t;
+            S.n = S.n + 1;
+            S.spawned.fetch_add(1, std::memory_order_release);
+            futex_wake(&S.spawned);
+            wait_baton(t);
+            return;
+        }
+        case 2: { // SPAWNED, on the creator: wait until the child registered (it cannot run before it gets the baton)
+            if (me == nullptr || !S.active) return;
+            for (;;) {
+                int cur = S.spawned.load(std::memory_order_acquire);
+                Thread* t = S.role_thread[role];
+                if (t != nullptr && t->dynamic && t->state != T_FINISHED) break;
+                futex_wait(&S.spawned, cur);
+            }
+            return;
+        }
+        case 1: { // END, on the dynamic thread
+            if (me == nullptr || !me->dynamic) return;
+            thread_end(me);
+            tls_me = nullptr;
+            return;
+        }
+        case 3: { // JOIN, on the joiner
+            if (me == nullptr || !S.active) return;
+            Thread* t = S.role_thread[role];
+            if (t == nullptr || t->state == T_FINISHED) return;
+            flush(me);
+            t->tick_budget = 1L << 40; // run to the end
+            if (t->state == T_PARKED) t->state = T_RUNNABLE;
+            me->state = T_JOIN;
+            me->wait_addr = t;
+            me->kind = 0;
+            decide(me, false, 5);
+            me->state = T_RUNNABLE;
+            return;
+        }
+        default: return;
+    }
+}
+
+// ---------------------------------------------------------------------------------------------
 // services
 // ---------------------------------------------------------------------------------------------
 int self() { return tls_me != nullptr ? tls_me->id : -1; }
@@ -1007,6 +1095,27 @@ void release_parked() {
         if (S.t[i].state == T_PARKED) S.t[i].state = T_RUNNABLE;
     }
 }
+// let the library thread with this role pass n sleeps, then park it again. Returns false if it is not running any more.
+bool tick(int role, int n) {
+    Thread* me = tls_me;
+    if (me == nullptr || role < 0 || role > 3) return false;
+    Thread* t = S.role_thread[role];
+    if (t == nullptr || t->state == T_FINISHED) return false;
+    flush(me);
+    t->tick_budget += n;
+    if (t->state == T_PARKED) t->state = T_RUNNABLE;
+    me->state = T_JOIN;
+    me->wait_addr = t;
+    me->kind = 99; // woken when the target parks
+    decide(me, false, 5);
+    me->state = T_RUNNABLE;
+    me->kind = 0;
+    return t->state != T_FINISHED;
+}
+bool role_alive(int role) {
+    Thread* t = S.role_thread[role];
+    return t != nullptr && t->state != T_FINISHED;
+}
 void harness_point(int kind, const void* addr, int size, int line) { point(kind, C_HARNESS, addr, size, "harness", line); }
 void harness_wait(const void* addr, int line) { wait_hook(0, addr, "harness", line); }
 
@@ -1021,5 +1130,5 @@ int yk_verif_yield(const char* file, int line) { return ykmc::yield_hook(file, l
 void yk_verif_event(int ev, const void* obj, unsigned long long a, unsigned long long b) {
     if (ykmc::event_cb != nullptr) ykmc::event_cb(ykmc::self(), ev, obj, a, b);
 }
-void yk_verif_thread(int, int) {}
+void yk_verif_thread(int what, int role) { ykmc::thread_hook(what, role); }
 }
